@@ -516,8 +516,8 @@ def _cost_measurements(rep, tier):
 def c19(rep, tier, seed):
     """yaclib_std::atomic computes what std::atomic computes (Atomic.tla reference semantics, both backends)"""
     seq.check_atomic(rep, tier)
-    rep.assumptions += ["floating types: integer-valued operands only; atomic_flag and fences carry no value and are not "
-                        "enumerated; one thread"]
+    rep.assumptions += ["floating types: integer-valued operands only; atomic_flag: test_and_set / clear with fences in between "
+                        "(test / wait / notify exist only in futex builds and are not enumerated); one thread"]
 
 
 # ------------------------------------------------------------------------------------------------ setup / replay
